@@ -66,6 +66,10 @@ func (e BridgeEngine) genKind(r *Run, kind string) (Step, bool) {
 		}
 		return blk(txs...), true
 	case "send":
+		if r.Pct(20) {
+			u := r.Rng.IntN(st.NUsers)
+			return blk(Tx{K: "convert_denom", S: KeyName("user", u), A: A("denom", "usdt", "amount", 10+r.Rng.IntN(400), "receiver", w.Key("user", u).Bech(), "target", c.Name)}), true
+		}
 		t, ok := e.genSend(r, c, v)
 		if !ok {
 			return Step{}, false
@@ -99,7 +103,23 @@ func (e BridgeEngine) genKind(r *Run, kind string) (Step, bool) {
 		if r.Pct(20) { // somebody else pays the fee bump
 			signer = KeyName("user", r.Rng.IntN(st.NUsers))
 		}
-		denom := e.baseDenomOfContract(c, p.Token.Contract)
+		// the fee is paid in the bridge denomination of the queued token (FX for FX) - or, as a
+		// fault, in the denomination of another bridge token of the chain
+		feeDenom := func(t *TokenInfo) string {
+			if t.Kind == "fx" {
+				return "FX"
+			}
+			return cctypes.NewBridgeDenom(c.Name, ExtAddrStr(c.Name, t.Contract))
+		}
+		denom := ""
+		for _, t := range c.Tokens {
+			if ExtAddrStr(c.Name, t.Contract) == p.Token.Contract {
+				denom = feeDenom(t)
+			}
+		}
+		if r.Pct(25) && len(c.Tokens) > 1 {
+			denom = feeDenom(c.Tokens[r.Rng.IntN(len(c.Tokens))])
+		}
 		if denom == "" {
 			return Step{}, false
 		}
@@ -205,6 +225,33 @@ func (e BridgeEngine) genKind(r *Run, kind string) (Step, bool) {
 		return Step{Kind: "block", DtMs: secs * 1000, N: 1}, true
 	case "adv":
 		return e.genAdversary(r, c, v)
+	case "actor":
+		i := r.Rng.IntN(len(c.Oracles))
+		if _, ok := v.Oracles[c.oracleKey(w, i).Bech()]; !ok {
+			return Step{}, false
+		}
+		oa := c.Oracles[i]
+		switch {
+		case (oa.CrashClaims || oa.CrashConfirms) && r.Pct(50):
+			return Step{Kind: "actor", A: A("chain", c.Name, "o", i, "op", "recover")}, true
+		case r.Cfg.FaultOn("crash-confirms") && r.Pct(60):
+			return Step{Kind: "actor", A: A("chain", c.Name, "o", i, "op", "crash-confirms")}, true
+		case r.Cfg.FaultOn("crash-claims"):
+			return Step{Kind: "actor", A: A("chain", c.Name, "o", i, "op", "crash-claims")}, true
+		}
+		return Step{}, false
+	case "rejoin":
+		// a slashed oracle pays its penalty and comes back (soon after the slash)
+		for i := range c.Oracles {
+			ok := c.oracleKey(w, i)
+			or, exists := v.Oracles[ok.Bech()]
+			if !exists || or.Online || or.SlashTimes == 0 {
+				continue
+			}
+			amt := or.GetSlashAmount(v.Params.SlashFraction).Add(FX(int64(1 + r.Rng.IntN(10))))
+			return blk(Tx{K: "add_delegate", S: KeyName("oracle", ok.Idx), A: A("chain", c.Name, "amount", amt.String())}), true
+		}
+		return Step{}, false
 	}
 	return Step{}, false
 }
